@@ -11,6 +11,7 @@ from engine.expr import Ex, norm, show, walk, alts
 from engine.intervals import dominating_facts
 from engine.mir import AnchorLost, callee_matches
 from engine.panics import enumerate_sites, discharge, const_return_summaries
+from engine.paths import paths, outcome, PathExplosion
 from engine.query import self_rooted, calls_matching, where, ret_alts
 from rules.shared_panic import is_read_root, is_write_root
 
@@ -276,6 +277,16 @@ def ret_alts_all(f, ex):
     return out
 
 
+_PATHS = {}
+
+
+def _paths_cached(f):
+    k = id(f)
+    if k not in _PATHS:
+        _PATHS[k] = paths(f, max_paths=6000)
+    return _PATHS[k]
+
+
 def errarm_rules(facts, rep, reach):
     """`if let Ok(x) = io_call() { .. }` / a match whose Err arm carries on: the failure of an I/O-performing call is discarded and the
     function continues as if nothing had happened.  Every direct test of an I/O result's discriminant must send its Err side to an
@@ -337,6 +348,26 @@ def errarm_rules(facts, rep, reach):
                           not callee_matches(f.term(x), r"FromResidual::from_residual$|convert::(From::from|Into::into)$|Result::<T, E>::map_err$|io::Error::new$|"
                                                         r"fmt::|format|ZipError|drop_in_place|mem::drop$|ToString::to_string$|string::String")]
             good = (builds_err and not rejoin and not carries_on) or returned
+            if not good:
+                # second opinion, path-sensitive: on every path that takes the Err edge nothing but error construction follows and the
+                # function returns an error (a helper that turns the failure into its own error, inlined here, joins the success path
+                # only syntactically)
+                BENIGN = (r"FromResidual::from_residual$|Try::branch$|convert::(From::from|Into::into)$|Result::<T, E>::map_err$|io::Error::new$|"
+                          r"fmt::|format|ZipError|drop_in_place|mem::drop$|ToString::to_string$|string::String")
+                try:
+                    pths = _paths_cached(f)
+                except PathExplosion:       # keep the structural verdict
+                    pths = None
+                if pths is not None:
+                    through = []
+                    for p_ in pths:
+                        bl = p_["blocks"]
+                        pos = [i for i in range(len(bl) - 1) if bl[i] == sb and bl[i + 1] == errt]
+                        if pos:
+                            through.append((p_, pos[0] + 1))
+                    good = bool(through) and all(
+                        outcome(p_)[0] in ("Err", "ErrProp") and not [e_ for e_, ep_ in zip(p_["effects"], p_["epos"]) if ep_ >= at_ and not re.search(BENIGN, e_[1])]
+                        for p_, at_ in through)
             if good:
                 rep.ok(rule, key, where(f, tt["span"]), "the Err side returns an error" if not returned else "the tested result is returned to the caller unchanged")
             elif re.sub(r"\s+", "_", key) in REVIEWED_ERRARM:
